@@ -603,6 +603,11 @@ LinkLayerSecondaryUnbalanced_handleMessage(LL_Sec_Unb self, uint8_t fc, bool isB
     default:
         DEBUG_PRINT("SLL - UNEXPECTED LINK LAYER MESSAGE\n");
 
+        /* the primary alternates the frame count bit for every frame it sends with FCV = 1 (e.g. the link test function):
+         * keep in step, also when the service is not implemented */
+        if (fcv)
+            checkFCB(self, fcb);
+
         SendFixedFrame(self->linkLayer, LL_FC_15_SERVICE_NOT_IMPLEMENTED, self->linkLayer->address, false, false, false,
                        false);
 
